@@ -89,6 +89,7 @@ pub fn generate(seed: u64, index: u64, thorough: bool) -> Scenario {
         sc.sched.pool = sc.sched.pool.max(2);
         sc.sched.mix = [Fx(0.1), Fx(0.1), Fx(0.1), Fx(0.7)];
     }
+    add_zero_sign_pairs(&mut sc, &mut Rng::new(mix(seed, "C11-zero-sign", index)));
     // concurrent callers on the shared parallel problem (own PRNG stream: every other
     // scenario stays as it was)
     let mut r2 = Rng::new(mix(seed, "C11-concurrent", index));
